@@ -247,32 +247,26 @@ def run(rep, facts):
             rep.violation("R5.3", "request-constructor", "constructor stores %s" % {k: ir.show(v)[:30] for k, v in f.items()}, b2.loc())
 
     # ---- R5.4 ---------------------------------------------------------------------------------------------
-    b, g, rows = rows_of(facts, RP + "::move_input")
-    good = 0
-    badm = []
-    for r in rows:
-        if r.end != 'return':
-            continue
-        w = {pl[2]: ir.peel(val) for (pl, val, n, s_) in r.writes if pl[0] == 'field'}
-        if not ('input_len' in w and w['input_len'][0] == 'param' and w['input_len'][2] == 'rem_len'):
-            badm.append("input_len is not set to rem_len")
-        cw = r.called("core::slice::copy_within")
-        for c in cw:
-            rng = ir.peel(c[1][1])
-            dest = cv(c[1][2])
-            if rng[0] == 'agg' and rng[2].endswith("Range"):
-                bd = dict(rng[3])
-                s0 = ir.peel(bd['start'])
-                used = any(y[0] == 'call' and y[1].endswith("checked_sub") and self_field(y[2][0], 'input_len') and ir.peel(y[2][1])[0] == 'param' for y in ir.walk(s0))
-                if not (used and self_field(bd['end'], 'input_len') and dest == 0):
-                    badm.append("copy_within does not move [input_len - rem_len, input_len) to offset 0")
-            else:
-                badm.append("unexpected copy range")
-        good += 1
-    if badm:
-        rep.violation("R5.4", "move_input", "; ".join(sorted(set(badm))), b.loc())
-    elif good:
-        rep.ok("R5.4", "move_input", "copy_within(input_len - rem_len .. input_len, 0) when needed; input_len <- rem_len on all %d paths" % good, b.loc())
+    # decided on values by E8 (rules/compaction.py): whatever the arithmetic is spelled like, on every return path the
+    # drive's remainder sits at [0, input_len) and input_len is its length
+    from . import compaction
+    cg = compaction.geometry(facts, _c03_contracts())
+    b = cg["body"]
+    unsafe = [o for o in cg["interp"].obligations if not o.ok]
+    if cg["bad"]:
+        rep.violation("R5.4", "move_input", cg["bad"][0][0], b.loc(), path=cg["bad"][0][1])
+    elif unsafe:
+        rep.violation("R5.4", "move_input", "not derivable on a path of the compaction: %s" % unsafe[0].text, unsafe[0].loc, path=unsafe[0].path)
+    elif not cg["ends"]:
+        rep.undecidable("R5.4", "move_input", "no return path interpreted", b.loc())
+    else:
+        rep.ok("R5.4", "move_input", "the drive's remainder [input_len - rem_len, input_len) ends up at offset 0 and input_len <- rem_len on all %d path(s)%s"
+               % (len(cg["ends"]), " (compaction written out in %s)" % b.npath if cg["hosted"] else ""), b.loc())
+
+
+def _c03_contracts():
+    from . import c03
+    return c03._contracts()
 
 
 def run_async_handoff(rep, facts):
